@@ -7,13 +7,13 @@ package txnh
 
 import (
 	"context"
-	"os"
-	"sync/atomic"
 	"errors"
 	"fmt"
+	"os"
 	"sort"
 	"strings"
 	"sync"
+	"sync/atomic"
 	"time"
 
 	"github.com/pingcap/kvproto/pkg/errorpb"
@@ -408,14 +408,20 @@ func (s *seamRPC) SendRequest(ctx context.Context, addr string, req *tikvrpc.Req
 		}
 	}
 	s.c.W.record(rec)
+	// a lost answer surfaces as a plain transport error or - Arg "deadline" - as the typed
+	// deadline-exceeded error the batch client / gRPC report for a time-out
+	lost := error(errInjected)
+	if a, _ := d.Arg.(string); a == "deadline" {
+		lost = context.DeadlineExceeded
+	}
 	switch d.Kind {
 	case DevDropResp:
-		return nil, errInjected
+		return nil, lost
 	case DevDownResp:
 		s.c.W.mu.Lock()
 		s.c.W.down[downKey] = true
 		s.c.W.mu.Unlock()
-		return nil, errInjected
+		return nil, lost
 	case DevCrashDlv:
 		s.c.W.Crash(s.c.ID)
 		s.blockDead()
@@ -468,7 +474,7 @@ func (p *seamPD) GetTS(ctx context.Context) (int64, int64, error) {
 }
 
 func (p *seamPD) GetLocalTS(ctx context.Context, _ string) (int64, int64, error) { return p.GetTS(ctx) }
-func (p *seamPD) GetMinTS(ctx context.Context) (int64, int64, error)               { return p.GetTS(ctx) }
+func (p *seamPD) GetMinTS(ctx context.Context) (int64, int64, error)             { return p.GetTS(ctx) }
 
 type tsFuture struct {
 	p   *seamPD
